@@ -73,10 +73,10 @@ CHECKS.update({
 CHECKS.update({
     "C18": dict(
         category="model_checking",
-        technique="exhaustive enumeration of job histories (all sequences of <= 3 decode+display jobs from a pool of 7 in two sharing modes, outputs compared with fresh-process lone runs) + stateless DFS over thread interleavings of format registry resolution under the controlled scheduler (preemption bound 0..3, then unbounded) on registry.go instrumented at check time, vector-clock race detection; free-running Go race detector pass as supplement in the thorough tier",
-        text="(1) All sequences of <= 3 (thorough 4) jobs from {mp3, gzip with nested JSON, pcap with TCP reassembly, JSON, truncated file forced to decode, CSV with comma option, CSV without} run on fresh interpreters sharing the process wide registry and on one interpreter via successive evaluations; every job's dump, JSON value and nested field bytes must be byte identical to the job's lone run in a fresh process, and a fingerprint of every default argument in the registry must not change; all lists of <= 3 inputs to one fq invocation must print the concatenation of the lone invocations. (2) 2-3 threads calling Registry.Group/MustAll/Groups on a fresh registry with dependencies: every schedule up to 3 preemptions and then all schedules, on registry.go instrumented from the live source (every Registry field and every .Formats access is a point, sync is shimmed): no unordered conflicting accesses, no deadlock, resolved groups identical to the sequential resolution. (3) thorough: the job bodies on 8 free running goroutines in a -race build (sampling supplement, reported separately). The free-running race detector pass runs in both tiers over the corpus: the smallest file of every format (242 jobs) decoded by two goroutines at the same time in a -race build, results compared with a lone decode.",
+        technique="exhaustive enumeration of job histories (all sequences of <= 3 decode+display jobs from a pool of 7 in two sharing modes, outputs compared with fresh-process lone runs) + stateless DFS over thread interleavings of format registry resolution under the controlled scheduler (preemption bound 0..3, then unbounded) on registry.go instrumented at check time, vector-clock race detection; separate free-running Go race detector pass over the corpus (two goroutines per file, -race build) as the complement the cooperative scheduler needs, in both tiers",
+        text="(1) All sequences of <= 3 (thorough 4) jobs from {mp3, gzip with nested JSON, pcap with TCP reassembly, JSON, truncated file forced to decode, CSV with comma option, CSV without} run on fresh interpreters sharing the process wide registry and on one interpreter via successive evaluations; every job's dump, JSON value and nested field bytes must be byte identical to the job's lone run in a fresh process, and a fingerprint of every default argument in the registry must not change; all lists of <= 3 inputs to one fq invocation must print the concatenation of the lone invocations. (2) 2-3 threads calling Registry.Group/MustAll/Groups on a fresh registry with dependencies: every schedule up to 3 preemptions and then all schedules, on registry.go instrumented from the live source (every Registry field and every .Formats access is a point, sync is shimmed): no unordered conflicting accesses, no deadlock, resolved groups identical to the sequential resolution. (3) the job bodies on 8 free running goroutines in a -race build (reported separately). The free-running race detector pass runs in both tiers over the corpus: the smallest file of every format (242 jobs) decoded by two goroutines at the same time in a -race build, results compared with a lone decode.",
         design_ref="§C18",
-        note="The claim is about separate interpreters sharing the registry (concurrent evaluation on one interpreter is not something fq does). Format packages are not instrumented: unsynchronised package state inside decoders is covered by the history differential (sequential leakage) and by the free-running race pass (thorough), not by the scheduler. Go map iteration order inside resolveGroups is not controlled; it does not change enabledness on the unchanged tree.",
+        note="The claim is about separate interpreters sharing the registry (concurrent evaluation on one interpreter is not something fq does). Format packages are not instrumented: unsynchronised package state inside decoders is covered by the history differential (sequential leakage) and by the free-running race pass, not by the scheduler. Go map iteration order inside resolveGroups is not controlled; it does not change enabledness on the unchanged tree.",
         engine="sched",
     ),
 })
